@@ -139,7 +139,7 @@ func (iv *Value) ValueFrom(value any) {
 			iv.ItemValue = string(data)
 		}
 		if rt.Kind() == reflect.String {
-			vv := value.(string)
+			vv := reflect.ValueOf(value).String()
 			var arr []any
 			if err := json.Unmarshal([]byte(vv), &arr); err != nil {
 				return
